@@ -1299,7 +1299,8 @@ theorem syncOne_rel {w : World} {σ : SState} (h : RelCore w σ) (c : Str) (s : 
             unfold applySchema; rw [he]
             have : guessType s ≠ guessType e.config := by
               rw [← hcfg, ← hty]; exact fun hh => htype hh.symm
-            simp only [hne, if_false, this, not_false_eq_true, if_true]
+            simp only [hne, if_false]
+            rw [if_pos this]
           rw [happ]; exact createLimiter_rel h c s w1 cache1 hs
         · have htype' : k.type = guessType s := by
             cases hd : decide (k.type = guessType s) with
@@ -1310,7 +1311,8 @@ theorem syncOne_rel {w : World} {σ : SState} (h : RelCore w σ) (c : Str) (s : 
             unfold applySchema; rw [he]
             have : ¬ guessType s ≠ guessType e.config := by
               rw [← hcfg, ← hty, htype']; simp
-            simp only [hne, if_false, this]
+            simp only [hne, if_false]
+            rw [if_neg this]
           rw [happ]
           cases hg : guessType s with
           | maxInflight =>
@@ -1364,5 +1366,614 @@ theorem syncOne_rel {w : World} {σ : SState} (h : RelCore w σ) (c : Str) (s : 
                 (fun cnt' hc' => by cases hc') (fun cnt' hc' => by cases hc')
               rw [setHeap_self w id .infinity hk] at this
               exact ⟨this, rfl⟩
+
+
+theorem cache_of_lims {w1 w : World} (h : w1.lims = w.lims) (c n : Str) : w1.cache c n = w.cache c n := by
+  unfold World.cache; rw [h]
+
+theorem applySchema_last (σ : SState) (c : Str) (s : Schema) : (applySchema σ c s).last = σ.last := by
+  unfold applySchema
+  split
+  · rfl
+  · split
+    · rfl
+    · split <;> rfl
+
+theorem applySchemas_last (c : Str) (σ : SState) (l : List Schema) : (applySchemas c σ l).last = σ.last := by
+  induction l generalizing σ with
+  | nil => rfl
+  | cons s rest ih => simp only [applySchemas]; rw [ih, applySchema_last]
+
+/-- the loop over the schemas of a `Sync` -/
+theorem syncSchemas_rel {w : World} {σ : SState} (h : RelCore w σ) (c : Str) (l : List Schema) (w' : World)
+    (hs : syncSchemas c w l = .ok w') :
+    RelCore w' (applySchemas c σ l) ∧ (∀ d, (w'.lims d).spec = (w.lims d).spec) ∧
+    (∀ c' n', (w'.cache c' n').isSome = true → (w.cache c' n').isSome = true ∨ (c' = c ∧ n' ∈ names l)) ∧
+    (∀ c' n', c' ≠ c → w'.cache c' n' = w.cache c' n') := by
+  induction l generalizing w σ with
+  | nil =>
+    simp only [syncSchemas] at hs
+    injection hs with hs; subst hs
+    exact ⟨h, fun _ => rfl, fun _ _ hh => Or.inl hh, fun _ _ _ => rfl⟩
+  | cons s rest ih =>
+    simp only [syncSchemas] at hs
+    cases hl : localSync w (((w.lims c).caches s.name).getD { config := Schema.zero, cur := none }) s with
+    | error e => rw [hl] at hs; cases hs
+    | ok p =>
+      obtain ⟨w1, cache1⟩ := p
+      rw [hl] at hs
+      simp only at hs
+      obtain ⟨hrel, hlims⟩ := syncOne_rel h c s w1 cache1 hl
+      obtain ⟨h1, h2, h3, h4⟩ := ih hrel hs
+      have hc1 : ∀ c' n', (putCache w1 c s.name (some cache1)).cache c' n' =
+          if c' = c ∧ n' = s.name then some cache1 else w.cache c' n' := by
+        intro c' n'; rw [putCache_cache, cache_of_lims hlims]
+      refine ⟨h1, ?_, ?_, ?_⟩
+      · intro d
+        rw [h2 d]
+        show ((putCache w1 c s.name (some cache1)).lims d).spec = _
+        rw [putCache_spec, hlims]
+      · intro c' n' hsome
+        rcases h3 c' n' hsome with hh | ⟨hh1, hh2⟩
+        · change ((putCache w1 c s.name (some cache1)).cache c' n').isSome = true at hh
+          rw [hc1] at hh
+          by_cases hcn : c' = c ∧ n' = s.name
+          · exact Or.inr ⟨hcn.1, by simp [names, hcn.2]⟩
+          · simp only [hcn, if_false] at hh; exact Or.inl hh
+        · exact Or.inr ⟨hh1, by simp only [names, List.map_cons, List.mem_cons]; exact Or.inr hh2⟩
+      · intro c' n' hne
+        rw [h4 c' n' hne]
+        change (putCache w1 c s.name (some cache1)).cache c' n' = _
+        rw [hc1]
+        have : ¬ (c' = c ∧ n' = s.name) := fun hh => hne hh.1
+        simp [this]
+
+/-- Names are removed (the same ones on both sides). -/
+theorem rel_delete {w : World} {σ : SState} (h : RelCore w σ) (c : Str) (P : Str → Prop) [DecidablePred P]
+    (sp : List Schema) (L : Str → List Schema) :
+    RelCore (w.setLim c { spec := sp, caches := fun n => if P n then none else (w.lims c).caches n })
+      { σ with last := L, entries := fun c' n' => if c' = c ∧ P n' then none else σ.entries c' n' } := by
+  have hcache : ∀ c' n', (w.setLim c { spec := sp, caches := fun n => if P n then none else (w.lims c).caches n }).cache c' n' =
+      if c' = c ∧ P n' then none else w.cache c' n' := by
+    intro c' n'
+    unfold World.cache World.setLim
+    by_cases hc : c' = c
+    · subst hc; by_cases hp : P n' <;> simp [hp]
+    · simp [hc]
+  have hc1 : ∀ c' n' cache', (w.setLim c { spec := sp, caches := fun n => if P n then none else (w.lims c).caches n }).cache c' n' = some cache' →
+      ¬ (c' = c ∧ P n') ∧ w.cache c' n' = some cache' := by
+    intro c' n' cache' hh
+    rw [hcache] at hh
+    by_cases hcn : c' = c ∧ P n'
+    · simp [hcn] at hh
+    · simp only [hcn, if_false] at hh; exact ⟨hcn, hh⟩
+  have he1 : ∀ c' n' e', (if c' = c ∧ P n' then none else σ.entries c' n') = some e' →
+      ¬ (c' = c ∧ P n') ∧ σ.entries c' n' = some e' := by
+    intro c' n' e' hh
+    by_cases hcn : c' = c ∧ P n'
+    · simp [hcn] at hh
+    · simp only [hcn, if_false] at hh; exact ⟨hcn, hh⟩
+  refine ⟨?_, ?_, ?_, ?_, ?_, ?_, h.reqsLen, h.reqsEq, h.reqObj, ?_, ?_, ?_, ?_⟩
+  · intro c' n'
+    rw [hcache]
+    show _ = (if c' = c ∧ P n' then none else σ.entries c' n').isSome
+    by_cases hcn : c' = c ∧ P n'
+    · simp [hcn]
+    · simp only [hcn, if_false]; exact h.dom c' n'
+  · intro c' n' cache' e' hc' he'
+    exact h.cfg c' n' cache' e' (hc1 _ _ _ hc').2 (he1 _ _ _ he').2
+  · intro c' n' cache' hc'; exact h.name c' n' cache' (hc1 _ _ _ hc').2
+  · intro c' n' cache' id' hc' hcur'; exact h.curOk c' n' cache' id' (hc1 _ _ _ hc').2 hcur'
+  · intro c' n' cache' hc' hcur'; exact h.curNone c' n' cache' (hc1 _ _ _ hc').2 hcur'
+  · intro c1 n1 c2 n2 cache1 cache2 id' h1 h2 h3 h4
+    exact h.inj c1 n1 c2 n2 cache1 cache2 id' (hc1 _ _ _ h1).2 (hc1 _ _ _ h2).2 h3 h4
+  · intro i r id' c' n' cache' hi hobj hc' hcur'
+    exact h.own i r id' c' n' cache' hi hobj (hc1 _ _ _ hc').2 hcur'
+  · intro c' n' cache' e' id' cnt' hc' he' hcur' hh
+    exact h.count c' n' cache' e' id' cnt' (hc1 _ _ _ hc').2 (he1 _ _ _ he').2 hcur' hh
+  · intro c' n' cache' e' i hc' he'
+    exact h.infl c' n' cache' e' i (hc1 _ _ _ hc').2 (he1 _ _ _ he').2
+  · intro c' n' e' he'
+    exact h.nodup c' n' e' (he1 _ _ _ he').2
+
+theorem sync_step {w : World} {σ : SState} (h : Rel w σ) (c : Str) (schemas : List Schema) (w' : World)
+    (hs : sync w c schemas = .ok w') : Rel w' (specSync σ c schemas) := by
+  unfold sync at hs
+  unfold specSync
+  by_cases hsame : (w.lims c).spec = schemas
+  · simp only [hsame, if_true] at hs
+    injection hs with hs; subst hs
+    have : σ.last c = schemas := by rw [← h.last c]; exact hsame
+    simp only [this, if_true]
+    exact h
+  · simp only [hsame, if_false] at hs
+    have hsame' : ¬ σ.last c = schemas := by rw [← h.last c]; exact hsame
+    simp only [hsame', if_false]
+    cases hss : syncSchemas c w schemas with
+    | error e => rw [hss] at hs; cases hs
+    | ok w1 =>
+      rw [hss] at hs
+      simp only at hs
+      injection hs with hs
+      obtain ⟨h1, h2, h3, h4⟩ := syncSchemas_rel h.core c schemas w1 hss
+      -- the model's deletion rule removes exactly the names absent from the new list
+      have hfun : (fun n => if n ∈ names (w.lims c).spec ∧ n ∉ names schemas then none else (w1.lims c).caches n) =
+          (fun n => if n ∉ names schemas then none else (w1.lims c).caches n) := by
+        funext n
+        by_cases hn : n ∈ names schemas
+        · simp [hn]
+        · by_cases ho : n ∈ names (w.lims c).spec
+          · simp [hn, ho]
+          · simp only [hn, ho, false_and, if_false, not_false_eq_true, if_true]
+            cases hcn : (w1.lims c).caches n with
+            | none => rfl
+            | some x =>
+              have hsome : (w1.cache c n).isSome = true := by unfold World.cache; rw [hcn]; rfl
+              rcases h3 c n hsome with hh | ⟨_, hh⟩
+              · exact absurd (h.dom2 c n hh) ho
+              · exact absurd hh hn
+      rw [hfun] at hs
+      subst hs
+      have hdel := rel_delete h1 c (fun n => n ∉ names schemas) schemas
+        (fun d => if d = c then schemas else (applySchemas c σ schemas).last d)
+      refine ⟨hdel, ?_, ?_⟩
+      · intro d
+        show ((w1.setLim c _).lims d).spec = (if d = c then schemas else (applySchemas c σ schemas).last d)
+        unfold World.setLim
+        by_cases hd : d = c
+        · simp [hd]
+        · simp only [hd, if_false]
+          rw [h2 d, h.last d, applySchemas_last]
+      · intro c' n' hsome
+        have hcache : (w1.setLim c { spec := schemas, caches := fun n => if n ∉ names schemas then none else (w1.lims c).caches n }).cache c' n' =
+            if c' = c ∧ n' ∉ names schemas then none else w1.cache c' n' := by
+          unfold World.cache World.setLim
+          by_cases hc : c' = c
+          · subst hc; by_cases hp : n' ∉ names schemas <;> simp [hp]
+          · simp [hc]
+        rw [hcache] at hsome
+        show n' ∈ names ((w1.setLim c _).lims c').spec
+        unfold World.setLim
+        by_cases hc : c' = c
+        · subst hc
+          simp only [if_true]
+          by_cases hp : n' ∈ names schemas
+          · exact hp
+          · simp [hp] at hsome
+        · have : ¬ (c' = c ∧ n' ∉ names schemas) := fun hh => hc hh.1
+          simp only [this, if_false] at hsome
+          simp only [hc, if_false]
+          rw [h2 c']
+          rw [h4 c' n' hc] at hsome
+          exact h.dom2 c' n' hsome
+
+
+/-! ### every op, every history -/
+
+theorem step_rel {w : World} {σ : SState} (h : Rel w σ) (op : Op) :
+    check σ op (step w op).2 = true ∧
+      ((step w op).2.isPanic = false → Rel (step w op).1 (specStep σ op (step w op).2)) := by
+  cases op with
+  | sync c schemas =>
+    simp only [KG.Model.LocalLimiter.step]
+    cases hs : sync w c schemas with
+    | error e => simp [check, Out.isPanic]
+    | ok w' =>
+      refine ⟨by simp [check], fun _ => ?_⟩
+      simp only [specStep]
+      exact sync_step h c schemas w' hs
+  | acquire c n tb =>
+    obtain ⟨w', b, ha, hchk, hrel⟩ := acquire_step h c n tb
+    simp only [KG.Model.LocalLimiter.step, ha]
+    exact ⟨hchk, fun _ => hrel⟩
+  | release i =>
+    simp only [KG.Model.LocalLimiter.step]
+    exact ⟨by simp [check], fun _ => release_step h i⟩
+
+theorem judgeFrom_run {w : World} {σ : SState} (h : Rel w σ) (k : Nat) (ops : List Op) :
+    judgeFrom σ k ops (run w ops) = none := by
+  induction ops generalizing w σ k with
+  | nil => simp [KG.Model.LocalLimiter.run, judgeFrom]
+  | cons op ops ih =>
+    obtain ⟨hchk, hrel⟩ := step_rel h op
+    simp only [KG.Model.LocalLimiter.run]
+    cases hp : (step w op).2.isPanic with
+    | true =>
+      simp only [if_true, judgeFrom, hchk, hp]
+    | false =>
+      simp only [Bool.false_eq_true, if_false, judgeFrom, hchk, if_true, hp]
+      exact ih (hrel hp) (k + 1)
+
+/-- reachable worlds are related to some bookkeeping state of the judge -/
+theorem rel_exec {w : World} {σ : SState} (h : Rel w σ) (ops : List Op) : ∃ σ', Rel (exec w ops) σ' := by
+  induction ops generalizing w σ with
+  | nil => exact ⟨σ, h⟩
+  | cons op ops ih =>
+    simp only [exec]
+    cases hp : (step w op).2.isPanic with
+    | true => simp only [if_true]; exact ⟨σ, h⟩
+    | false =>
+      simp only [Bool.false_eq_true, if_false]
+      exact ih ((step_rel h op).2 hp)
+
+
+theorem reachable_rel {w : World} (h : KG.Model.LocalLimiter.Reachable w) : ∃ σ, Rel w σ := by
+  obtain ⟨ops, rfl⟩ := h
+  exact rel_exec rel_init ops
+
+/-! ### isolation (frame lemmas) -/
+
+theorem answer_congr (w1 w2 : World) (c n : Str) (tb : Bool)
+    (hg : getOrDefault w1 c n = getOrDefault w2 c n)
+    (hh : ∀ id, getOrDefault w1 c n = some (some id) → w1.heap id = w2.heap id) :
+    answer w1 c n tb = answer w2 c n tb := by
+  unfold answer acquire
+  rw [← hg]
+  cases hgo : getOrDefault w1 c n with
+  | none => rfl
+  | some o =>
+    cases o with
+    | none => rfl
+    | some id =>
+      simp only
+      rw [← hh id hgo]
+      cases w1.heap id <;> rfl
+
+theorem getOrDefault_congr (w1 w2 : World) (c n : Str) (h : w1.cache c n = w2.cache c n) :
+    getOrDefault w1 c n = getOrDefault w2 c n := by
+  rw [getOrDefault_eq, getOrDefault_eq, h]
+
+theorem getOrDefault_some {w : World} {c n : Str} {id : Nat} (h : getOrDefault w c n = some (some id)) :
+    ∃ cache, w.cache c n = some cache ∧ cache.cur = some id := by
+  rw [getOrDefault_eq] at h
+  by_cases hn : n = []
+  · simp [hn] at h
+  · simp only [hn, if_false] at h
+    cases hc : w.cache c n with
+    | none => rw [hc] at h; simp at h
+    | some cache =>
+      rw [hc] at h; simp only [Option.map_some] at h
+      injection h with h
+      exact ⟨cache, rfl, h⟩
+
+theorem acquire_frame {w w' : World} {c0 n0 : Str} {tb b : Bool} (h : acquire w c0 n0 tb = .ok (w', b)) :
+    (∀ c n, w'.cache c n = w.cache c n) ∧
+    (∀ id, getOrDefault w c0 n0 ≠ some (some id) → w'.heap id = w.heap id) := by
+  unfold acquire at h
+  cases hg : getOrDefault w c0 n0 with
+  | none =>
+    rw [hg] at h; simp only at h
+    injection h with h; injection h with h1 h2; subst h1
+    exact ⟨fun _ _ => rfl, fun _ _ => rfl⟩
+  | some o =>
+    cases o with
+    | none => rw [hg] at h; cases h
+    | some id0 =>
+      rw [hg] at h; simp only at h
+      cases hk : w.heap id0 with
+      | none => rw [hk] at h; cases h
+      | some k =>
+        rw [hk] at h; simp only at h
+        injection h with h; injection h with h1 h2; subst h1
+        refine ⟨fun _ _ => rfl, ?_⟩
+        intro id hne
+        show (w.setHeap id0 _).heap id = _
+        rw [setHeap_heap]
+        have : id ≠ id0 := fun hh => hne (by rw [hh])
+        simp [this]
+
+theorem release_frame (w : World) (i : Nat) :
+    (∀ c n, (release w i).1.cache c n = w.cache c n) ∧
+    (∀ id, (∀ r, w.reqs[i]? = some r → r.obj ≠ some id) → (release w i).1.heap id = w.heap id) := by
+  unfold release
+  cases hr : w.reqs[i]? with
+  | none => exact ⟨fun _ _ => rfl, fun _ _ => rfl⟩
+  | some r =>
+    dsimp only
+    split
+    · cases hobj : r.obj with
+      | none => exact ⟨fun _ _ => rfl, fun _ _ => rfl⟩
+      | some id0 =>
+        dsimp only
+        cases hk : w.heap id0 with
+        | none => exact ⟨fun _ _ => rfl, fun _ _ => rfl⟩
+        | some k =>
+          dsimp only
+          refine ⟨fun _ _ => rfl, ?_⟩
+          intro id hne
+          show (World.setHeap _ id0 _).heap id = _
+          rw [setHeap_heap]
+          have : id ≠ id0 := fun hh => hne r rfl (by rw [hobj, hh])
+          simp [this]
+    · exact ⟨fun _ _ => rfl, fun _ _ => rfl⟩
+
+theorem createLimiter_frame {w w1 : World} {s : Schema} {cache1 : Cache} (h : createLimiter w s = .ok (w1, cache1)) :
+    w1.lims = w.lims ∧ w1.next = w.next + 1 ∧ cache1.cur = some w.next ∧ (∀ id, id < w.next → w1.heap id = w.heap id) := by
+  unfold createLimiter at h
+  cases hnew : newFlowControl s with
+  | error e => rw [hnew] at h; cases h
+  | ok k =>
+    rw [hnew] at h
+    injection h with h; injection h with h1 h2; subst h1; subst h2
+    refine ⟨rfl, rfl, rfl, ?_⟩
+    intro id hlt
+    rw [alloc_heap]
+    have : id ≠ w.next := by omega
+    simp [this]
+
+/-- what `localWrapper.Sync` can touch: the cache's own limiter object, or a fresh one -/
+theorem localSync_frame {w w1 : World} {cache cache1 : Cache} {s : Schema}
+    (h : localSync w cache s = .ok (w1, cache1)) :
+    w1.lims = w.lims ∧ w.next ≤ w1.next ∧ (cache1.cur = cache.cur ∨ cache1.cur = some w.next) ∧
+    (∀ id, id < w.next → cache.cur ≠ some id → w1.heap id = w.heap id) := by
+  rw [localSync_eq] at h
+  by_cases hsame : s = cache.config
+  · simp only [hsame, if_true] at h
+    injection h with h; injection h with h1 h2; subst h1; subst h2
+    exact ⟨rfl, Nat.le_refl _, Or.inl rfl, fun _ _ _ => rfl⟩
+  · simp only [hsame, if_false] at h
+    have fromCreate : createLimiter w s = .ok (w1, cache1) →
+        w1.lims = w.lims ∧ w.next ≤ w1.next ∧ cache1.cur = some w.next ∧
+        (∀ id, id < w.next → w1.heap id = w.heap id) := by
+      intro hc
+      obtain ⟨h1, h2, h3, h4⟩ := createLimiter_frame hc
+      exact ⟨h1, by omega, h3, fun id hlt => h4 id hlt⟩
+    cases hcur : cache.cur with
+    | none =>
+      rw [hcur] at h
+      obtain ⟨a, b, c, d⟩ := fromCreate h
+      exact ⟨a, b, Or.inr c, fun id hlt _ => d id hlt⟩
+    | some id0 =>
+      rw [hcur] at h; simp only at h
+      cases hk : w.heap id0 with
+      | none => rw [hk] at h; cases h
+      | some k =>
+        rw [hk] at h; simp only at h
+        by_cases htype : k.type ≠ guessType s
+        · rw [if_pos htype] at h
+          obtain ⟨a, b, c, d⟩ := fromCreate h
+          exact ⟨a, b, Or.inr c, fun id hlt _ => d id hlt⟩
+        · rw [if_neg htype] at h
+          have resized : ∀ k', (Except.ok (w.setHeap id0 k', ({ config := s, cur := some id0 } : Cache)) : Except String (World × Cache)) = .ok (w1, cache1) →
+              w1.lims = w.lims ∧ w.next ≤ w1.next ∧ (cache1.cur = some id0 ∨ cache1.cur = some w.next) ∧
+              (∀ id, id < w.next → some id0 ≠ some id → w1.heap id = w.heap id) := by
+            intro k' hh
+            injection hh with hh; injection hh with h1 h2; subst h1; subst h2
+            refine ⟨rfl, Nat.le_refl _, Or.inl rfl, ?_⟩
+            intro id _ hne
+            rw [setHeap_heap]
+            have : id ≠ id0 := fun hh => hne (by rw [hh])
+            simp [this]
+          cases hg : guessType s with
+          | maxInflight =>
+            rw [hg] at h; simp only at h
+            cases hm : s.mi with
+            | none => rw [hm] at h; cases h
+            | some m => rw [hm] at h; exact resized _ h
+          | tokenBucket =>
+            rw [hg] at h; simp only at h
+            cases ht : s.tb with
+            | none => rw [ht] at h; cases h
+            | some qb => obtain ⟨q, b⟩ := qb; rw [ht] at h; exact resized _ h
+          | exempt =>
+            rw [hg] at h; simp only at h
+            injection h with h; injection h with h1 h2; subst h1; subst h2
+            exact ⟨rfl, Nat.le_refl _, Or.inl rfl, fun _ _ _ => rfl⟩
+
+/-- a `Sync` of cluster `c` leaves every limiter object that is not current for a schema of `c` untouched -/
+theorem syncSchemas_frame (c : Str) (l : List Schema) (w w' : World) (hs : syncSchemas c w l = .ok w')
+    (id : Nat) (hlt : id < w.next) (hno : ∀ n cache, w.cache c n = some cache → cache.cur ≠ some id) :
+    w'.heap id = w.heap id := by
+  induction l generalizing w with
+  | nil => simp only [syncSchemas] at hs; injection hs with hs; subst hs; rfl
+  | cons s rest ih =>
+    simp only [syncSchemas] at hs
+    cases hl : localSync w (((w.lims c).caches s.name).getD { config := Schema.zero, cur := none }) s with
+    | error e => rw [hl] at hs; cases hs
+    | ok p =>
+      obtain ⟨w1, cache1⟩ := p
+      rw [hl] at hs; simp only at hs
+      obtain ⟨hlims, hnext, hcur1, hheap⟩ := localSync_frame hl
+      have hcur0 : (((w.lims c).caches s.name).getD { config := Schema.zero, cur := none }).cur ≠ some id := by
+        cases hc : (w.lims c).caches s.name with
+        | none => simp
+        | some cache0 => simp only [Option.getD_some]; exact hno s.name cache0 hc
+      have h1 := hheap id hlt hcur0
+      rw [← h1]
+      refine ih (putCache w1 c s.name (some cache1)) hs (by show id < w1.next; omega) ?_
+      intro n cache hc
+      rw [putCache_cache, cache_of_lims hlims] at hc
+      by_cases hn : n = s.name
+      · have : (c = c ∧ n = s.name) := ⟨rfl, hn⟩
+        rw [if_pos this] at hc
+        injection hc with hc; subst hc
+        rcases hcur1 with h2 | h2
+        · rw [h2]; exact hcur0
+        · rw [h2]; intro hh; injection hh with hh; omega
+      · have : ¬ (c = c ∧ n = s.name) := fun hh => hn hh.2
+        rw [if_neg this] at hc
+        exact hno n cache hc
+
+theorem sync_frame {w w' : World} {c0 : Str} {l : List Schema} (h : Rel w (σ := σ)) (hs : sync w c0 l = .ok w')
+    (c n : Str) (hc : c ≠ c0) :
+    w'.cache c n = w.cache c n ∧ ∀ id cache, w.cache c n = some cache → cache.cur = some id → w'.heap id = w.heap id := by
+  unfold sync at hs
+  by_cases hsame : (w.lims c0).spec = l
+  · simp only [hsame, if_true] at hs
+    injection hs with hs; subst hs
+    exact ⟨rfl, fun _ _ _ _ => rfl⟩
+  · simp only [hsame, if_false] at hs
+    cases hss : syncSchemas c0 w l with
+    | error e => rw [hss] at hs; cases hs
+    | ok w1 =>
+      rw [hss] at hs; simp only at hs
+      injection hs with hs; subst hs
+      obtain ⟨_, _, _, h4⟩ := syncSchemas_rel h.core c0 l w1 hss
+      constructor
+      · show (World.setLim w1 c0 _).cache c n = _
+        unfold World.cache World.setLim
+        simp only [hc, if_false]
+        exact h4 c n hc
+      · intro id cache hcache hcur
+        show w1.heap id = w.heap id
+        refine syncSchemas_frame c0 l w w1 hss id (h.core.curOk c n cache id hcache hcur).1 ?_
+        intro n' cache' hc' hcur'
+        exact hc (h.core.inj c n c0 n' cache cache' id hcache hc' hcur hcur').1
+
+/-- An op that does not concern `(c, n)` does not change the answer a request for `(c, n)` gets. -/
+theorem isolation_step {w : World} {σ : SState} (h : Rel w σ) (op : Op) (c n : Str) (tb : Bool)
+    (hna : ¬ addresses w op c n) : answer (step w op).1 c n tb = answer w c n tb := by
+  cases op with
+  | sync c0 l =>
+    simp only [KG.Model.LocalLimiter.step]
+    have hc : c ≠ c0 := fun hh => hna hh.symm
+    cases hs : sync w c0 l with
+    | error e => rfl
+    | ok w' =>
+      obtain ⟨h1, h2⟩ := sync_frame h hs c n hc
+      refine answer_congr w' w c n tb (getOrDefault_congr w' w c n h1) ?_
+      intro id hg
+      obtain ⟨cache, hcache, hcur⟩ := getOrDefault_some hg
+      rw [h1] at hcache
+      exact h2 id cache hcache hcur
+  | acquire c0 n0 tb0 =>
+    simp only [KG.Model.LocalLimiter.step]
+    cases ha : acquire w c0 n0 tb0 with
+    | error e => rfl
+    | ok p =>
+      obtain ⟨w', b⟩ := p
+      obtain ⟨h1, h2⟩ := acquire_frame ha
+      refine answer_congr w' w c n tb (getOrDefault_congr w' w c n (h1 c n)) ?_
+      intro id hg
+      obtain ⟨cache, hcache, hcur⟩ := getOrDefault_some hg
+      rw [h1] at hcache
+      apply h2
+      intro hg0
+      obtain ⟨cache0, hcache0, hcur0⟩ := getOrDefault_some hg0
+      obtain ⟨e1, e2⟩ := h.core.inj c0 n0 c n cache0 cache id hcache0 hcache hcur0 hcur
+      exact hna ⟨e1, e2⟩
+  | release i =>
+    simp only [KG.Model.LocalLimiter.step]
+    obtain ⟨h1, h2⟩ := release_frame w i
+    refine answer_congr _ w c n tb (getOrDefault_congr _ w c n (h1 c n)) ?_
+    intro id hg
+    obtain ⟨cache, hcache, hcur⟩ := getOrDefault_some hg
+    rw [h1] at hcache
+    apply h2
+    intro r hr hobj
+    obtain ⟨e1, e2⟩ := h.core.own i r id c n cache hr hobj hcache hcur
+    apply hna
+    simp only [addresses, hr]
+    exact ⟨e1.symm, e2.symm⟩
+
+
+/-! ### (c) the dispatcher gives the slot back exactly once -/
+
+theorem unwind_counts (ds : List Bool) : countAcq (unwind ds) = 0 ∧ countRel (unwind ds) = (ds.filter id).length := by
+  unfold unwind countAcq countRel
+  induction ds.filter id with
+  | nil => simp
+  | cons x xs ih => simp [List.count_cons, ih.1, ih.2]
+
+/-- after the acquire guard: nothing mentions the limiter any more; every deferred `Release` runs once -/
+theorem exec_tail (sc : Scenario) (post : List Stmt) (i : Nat) (ds : List Bool)
+    (h : post.any mentionsLimiter = false) :
+    countAcq (execStmts sc post i ds) = 0 ∧ countRel (execStmts sc post i ds) = (ds.filter id).length := by
+  induction post generalizing i ds with
+  | nil => exact unwind_counts ds
+  | cons st rest ih =>
+    simp only [List.any_cons, Bool.or_eq_false_iff] at h
+    obtain ⟨hst, hrest⟩ := h
+    cases st with
+    | guard =>
+      simp only [execStmts]
+      cases sc.choice i with
+      | go => exact ih (i + 1) ds hrest
+      | exit => simp only [if_true]; exact unwind_counts ds
+      | panic => exact unwind_counts ds
+    | other =>
+      simp only [execStmts]
+      cases sc.choice i with
+      | go => exact ih (i + 1) ds hrest
+      | exit =>
+        have : ¬ (Stmt.other = Stmt.guard) := by decide
+        simp only [this, if_false]; exact ih (i + 1) ds hrest
+      | panic => exact unwind_counts ds
+    | deferOther =>
+      simp only [execStmts]
+      have := ih (i + 1) (false :: ds) hrest
+      simpa using this
+    | acquireGuard => simp [mentionsLimiter] at hst
+    | deferRelease => simp [mentionsLimiter] at hst
+    | bad => simp [mentionsLimiter] at hst
+
+theorem exec_release_once (sc : Scenario) (p : List Stmt) (i : Nat) (ds : List Bool)
+    (h : shapeOk p = true) (hds : ds.filter id = []) :
+    countRel (execStmts sc p i ds) = countAcq (execStmts sc p i ds) ∧ countAcq (execStmts sc p i ds) ≤ 1 := by
+  induction p generalizing i ds with
+  | nil => simp [shapeOk] at h
+  | cons st rest ih =>
+    have hun : countAcq (unwind ds) = 0 ∧ countRel (unwind ds) = 0 := by
+      have := unwind_counts ds; rw [hds] at this; simpa using this
+    cases st with
+    | acquireGuard =>
+      cases rest with
+      | nil => simp [shapeOk, mentionsLimiter] at h
+      | cons st2 post =>
+        cases st2 with
+        | deferRelease =>
+          simp only [shapeOk, Bool.not_eq_true'] at h
+          simp only [execStmts]
+          cases sc.choice i with
+          | panic => simp [hun.1, hun.2]
+          | go =>
+            cases sc.granted with
+            | true =>
+              have := exec_tail sc post (i + 1 + 1) (true :: ds) h
+              simp only [if_true, countAcq, countRel, List.count_cons] at this ⊢
+              simp [this.1, this.2, hds, countAcq, countRel]
+            | false =>
+              simp only [Bool.false_eq_true, if_false, countAcq, countRel, List.count_cons]
+              have h1 := hun.1; have h2 := hun.2
+              simp only [countAcq, countRel] at h1 h2
+              simp [h1, h2]
+          | exit =>
+            cases sc.granted with
+            | true =>
+              have := exec_tail sc post (i + 1 + 1) (true :: ds) h
+              simp only [if_true, countAcq, countRel, List.count_cons] at this ⊢
+              simp [this.1, this.2, hds, countAcq, countRel]
+            | false =>
+              simp only [Bool.false_eq_true, if_false, countAcq, countRel, List.count_cons]
+              have h1 := hun.1; have h2 := hun.2
+              simp only [countAcq, countRel] at h1 h2
+              simp [h1, h2]
+        | guard => simp [shapeOk, mentionsLimiter] at h
+        | acquireGuard => simp [shapeOk, mentionsLimiter] at h
+        | deferOther => simp [shapeOk, mentionsLimiter] at h
+        | other => simp [shapeOk, mentionsLimiter] at h
+        | bad => simp [shapeOk, mentionsLimiter] at h
+    | guard =>
+      simp only [shapeOk, mentionsLimiter, Bool.not_false, Bool.true_and] at h
+      simp only [execStmts]
+      cases sc.choice i with
+      | go => exact ih (i + 1) ds h hds
+      | exit => simp [hun.1, hun.2]
+      | panic => simp [hun.1, hun.2]
+    | other =>
+      simp only [shapeOk, mentionsLimiter, Bool.not_false, Bool.true_and] at h
+      simp only [execStmts]
+      cases sc.choice i with
+      | go => exact ih (i + 1) ds h hds
+      | exit =>
+        have : ¬ (Stmt.other = Stmt.guard) := by decide
+        simp only [this, if_false]; exact ih (i + 1) ds h hds
+      | panic => simp [hun.1, hun.2]
+    | deferOther =>
+      simp only [shapeOk, mentionsLimiter, Bool.not_false, Bool.true_and] at h
+      simp only [execStmts]
+      exact ih (i + 1) (false :: ds) h (by simpa using hds)
+    | deferRelease => simp [shapeOk, mentionsLimiter] at h
+    | bad => simp [shapeOk, mentionsLimiter] at h
 
 end KG.Lemmas.LocalLimiter
